@@ -109,6 +109,12 @@ def removeOk (s : State) (key : String) : Prop :=
 /-- the directories `getCleanupDirectories(cleanupCommitted = false)` returns -/
 def orphans (s : State) : List Dir := s.dirs.filter (fun d => !liveDir s.snaps d)
 
+/-- where a createSnapshot continues after its commit: Prepare with a target mounts next -/
+def afterCreate (tgt : Option String) (sn : Snap) : PC :=
+  match tgt with
+  | some T => .prepMount T sn
+  | none => .done
+
 /-- one atomic transition of the interleaved machine -/
 inductive CStep (v : Variant) : CState → CState → Prop where
   /-- a caller issues a call -/
@@ -134,7 +140,7 @@ inductive CStep (v : Variant) : CState → CState → Prop where
   /-- `t.Commit()` of createSnapshot; the lock is released -/
   | createCommit (c : CState) (i : Nat) (tgt : Option String) (sn : Snap)
       (hpc : c.th i = .crCommit tgt sn) :
-      CStep v c (c.run i (.txCreate sn) (match tgt with | some T => .prepMount T sn | none => .done))
+      CStep v c (c.run i (.txCreate sn) (afterCreate tgt sn))
   /-- the backend Mount of a Prepare with target -/
   | mount (c : CState) (i : Nat) (T : String) (sn : Snap) (hpc : c.th i = .prepMount T sn) :
       CStep v c (c.run i (.fsMount sn.id sn.labels ((c.orc i).mountOk sn.id))
